@@ -93,6 +93,13 @@ func (w *ConfigurationWatcher) Start(ch chan<- controller.ID) error {
 				Target: event.Configuration.ID.Target,
 				Index:  event.Configuration.Applied.Target,
 			})
+			// While a rollback is being applied the applied target is the revision it restores, not the transaction
+			// being rolled back: that one is the last applied index. It waits for the configuration to be
+			// synchronized in the current term and has to be woken when that happens.
+			ch <- controller.NewID(configapi.TransactionID{
+				Target: event.Configuration.ID.Target,
+				Index:  event.Configuration.Applied.Index,
+			})
 		}
 	}()
 	return nil
